@@ -156,12 +156,33 @@ theorem cmpStr_eq {a b : String} (h : cmpStr a b = .eq) : a = b := by
     · assumption
     · cases h
 
+theorem cmpInt_eq {a b : Int} (h : cmpInt a b = .eq) : a = b := by
+  unfold cmpInt at h
+  split at h
+  · cases h
+  · split at h
+    · assumption
+    · cases h
+
+theorem cmpBool_eq {a b : Bool} (h : cmpBool a b = .eq) : a = b := by
+  cases a <;> cases b <;> simp [cmpBool] at h ⊢
+
+theorem cmpBytes_eq : ∀ {a b : List Nat}, cmpBytes a b = .eq → a = b
+  | [], [], _ => rfl
+  | [], _ :: _, h => by simp [cmpBytes] at h
+  | _ :: _, [], h => by simp [cmpBytes] at h
+  | x :: xs, y :: ys, h => by
+    simp only [cmpBytes] at h
+    split at h
+    · rename_i he
+      rw [cmpNat_eq he, cmpBytes_eq h]
+    · rename_i o hne
+      exact absurd h (by intro h2; exact hne (by rw [h2]))
+
 theorem Val.cmp_eq {x y : Val} (h : x.cmp y = .eq) : x = y := by
-  cases x <;> cases y <;> simp only [Val.cmp] at h
-  · rw [cmpNat_eq h]
-  · cases h
-  · cases h
-  · rw [cmpStr_eq h]
+  cases x <;> cases y <;> simp only [Val.cmp, Val.tag] at h <;> first
+    | (rw [cmpNat_eq h]) | (rw [cmpStr_eq h]) | (rw [cmpInt_eq h]) | (rw [cmpBool_eq h]) | (rw [cmpBytes_eq h])
+    | (exact absurd h (by decide))
 
 theorem swap_eq {o : Ordering} (h : o.swap = .eq) : o = .eq := by
   cases o <;> simp [Ordering.swap] at h ⊢
@@ -277,10 +298,33 @@ theorem cmpStr_swap (a b : String) : cmpStr b a = (cmpStr a b).swap := by
         exact h2 (String.le_antisymm (String.not_lt.mp hn) hle)
       simp [h1, h2, h3, Ordering.swap]
 
+theorem cmpInt_swap (a b : Int) : cmpInt b a = (cmpInt a b).swap := by
+  unfold cmpInt
+  by_cases h1 : a < b
+  · have : ¬ b < a := by omega
+    have h3 : ¬ b = a := by omega
+    simp [h1, this, h3, Ordering.swap]
+  · by_cases h2 : a = b
+    · subst h2; simp [Ordering.swap]
+    · have : b < a := by omega
+      simp [h1, h2, this, Ordering.swap]
+
+theorem cmpBool_swap (a b : Bool) : cmpBool b a = (cmpBool a b).swap := by
+  cases a <;> cases b <;> rfl
+
+theorem cmpBytes_swap : ∀ (a b : List Nat), cmpBytes b a = (cmpBytes a b).swap
+  | [], [] => rfl
+  | [], _ :: _ => rfl
+  | _ :: _, [] => rfl
+  | x :: xs, y :: ys => by
+    simp only [cmpBytes]
+    rw [cmpNat_swap x y]
+    cases h : cmpNat x y <;> simp only [Ordering.swap]
+    exact cmpBytes_swap xs ys
+
 theorem Val.cmp_swap (x y : Val) : y.cmp x = (x.cmp y).swap := by
-  cases x <;> cases y <;> simp only [Val.cmp, Ordering.swap]
-  · exact cmpNat_swap _ _
-  · exact cmpStr_swap _ _
+  cases x <;> cases y <;> simp only [Val.cmp, Val.tag] <;> first
+    | exact cmpNat_swap _ _ | exact cmpStr_swap _ _ | exact cmpInt_swap _ _ | exact cmpBool_swap _ _ | exact cmpBytes_swap _ _
 
 theorem swap_swap (o : Ordering) : o.swap.swap = o := by cases o <;> rfl
 
